@@ -24,11 +24,12 @@ import (
 // c20RTCase is one real-time scenario: the waiters register in the listed order (each on its own connection to one real
 // yubiagent server), then one further client sends the listed requests one after the other.
 type c20RTCase struct {
-	RealTime bool
-	Waiters  []int
-	Requests []int
-	IdleMs   int   `json:",omitempty"` // how long the waiters are left alone before the first request
-	HangUps  []int `json:",omitempty"` // indices of waiters whose client closes its connection once all have registered: nobody else is released by that
+	RealTime     bool
+	Waiters      []int
+	Requests     []int
+	SharedClient bool  `json:",omitempty"` // the shared-client scenario (c20RTSharedClient) instead of raw connections
+	IdleMs       int   `json:",omitempty"` // how long the waiters are left alone before the first request
+	HangUps      []int `json:",omitempty"` // indices of waiters whose client closes its connection once all have registered: nobody else is released by that
 }
 
 const (
@@ -80,6 +81,10 @@ func c20RealTime(c *ev.Ctx, full bool) {
 			{Waiters: []int{40, 35}, Requests: []int{11, 35}, IdleMs: 6000}, // (a wait request is itself a request with code 35: the waiter on 35 registers last)
 		}
 	}
+	c.Eval()
+	if key, desc := c20RTSharedClient(); key != "" {
+		c.Violation(key, desc+"\n  real-time scenario: one yubiagent client shared by two goroutines (waits for 11, then 19) and a second client (32)", map[string]any{"RealTime": true, "SharedClient": true})
+	}
 	found := 0
 	for _, k := range cases {
 		if found >= 2 || c.Expired("C20 real-time pass") { // a failing scenario can cost the full release allowance
@@ -99,6 +104,117 @@ func c20RealTime(c *ev.Ctx, full bool) {
 		}
 		c.Count("real_time_scenarios", 1)
 	}
+}
+
+// c20RTSharedClient: the project's own client library in front of the server - ONE client object shared by two goroutines
+// (the second wait queues behind the first inside the client) while another client waits for a third code. Every waiter is
+// released by a request of its own code only.
+func c20RTSharedClient() (key, desc string) {
+	ua := uagent.New()
+	ua.Ring.Add(agent.AddedKey{PrivateKey: fix.Ed(0), Comment: "k1"})
+	c20Seq++
+	addr := fmt.Sprintf("/verif/c20-rt-%d", c20Seq)
+	ua.Listen(addr)
+	defer vnet.Unregister(addr)
+	srv, err := yubiagent.NewServer(addr, true)
+	if err != nil {
+		return "C20:harness:server", err.Error()
+	}
+	saddr := addr + "-server"
+	vnet.Register(saddr, func() (net.Conn, error) {
+		ce, se := net.Pipe()
+		go func() { ev.Guard(func() { yubiagent.ServeAgent(srv, se) }) }()
+		return ce, nil
+	})
+	defer vnet.Unregister(saddr)
+	clA, e1 := yubiagent.NewClient(saddr)
+	clB, e2 := yubiagent.NewClient(saddr)
+	sender, e3 := yubiagent.NewClient(saddr)
+	if e1 != nil || e2 != nil || e3 != nil {
+		return "C20:harness:client", fmt.Sprint(e1, e2, e3)
+	}
+	var rel [3]atomic.Bool
+	codes := [3]int{11, 19, 32}
+	wait := func(i int, cl yubiagent.YubiAgent) {
+		go func() {
+			if p := ev.Guard(func() { cl.Wait(byte(codes[i])) }); p == "" {
+				rel[i].Store(true)
+			}
+		}()
+	}
+	defer func() {
+		if wb, ok := reflect.ValueOf(srv).Elem().FieldByName("ShimAgent").Interface().(waitBroadcaster); ok {
+			for round := 0; round < 3; round++ {
+				for _, code := range codes {
+					code := code
+					ev.Guard(func() { wb.Broadcast(byte(code)) })
+				}
+				time.Sleep(50 * time.Millisecond)
+			}
+		}
+	}()
+	wait(0, clA) // in flight
+	time.Sleep(200 * time.Millisecond)
+	wait(1, clA) // queued behind it inside the client
+	time.Sleep(200 * time.Millisecond)
+	wait(2, clB)
+	time.Sleep(c20RTSettle)
+	for i := range rel {
+		if rel[i].Load() {
+			return "C20:released-without-matching-request", fmt.Sprintf("the waiter on code %d returned before any request was sent", codes[i])
+		}
+	}
+	request := func(code int) {
+		done := make(chan struct{})
+		go func() {
+			ev.Guard(func() {
+				switch code {
+				case 11:
+					sender.List()
+				case 19:
+					sender.RemoveAll()
+				case 32:
+					sender.ListSlots()
+				}
+			})
+			close(done)
+		}()
+		select {
+		case <-done:
+		case <-time.After(c20RTRelease):
+		}
+	}
+	await := func(i int) bool {
+		deadline := time.Now().Add(c20RTRelease)
+		for !rel[i].Load() && time.Now().Before(deadline) {
+			time.Sleep(5 * time.Millisecond)
+		}
+		return rel[i].Load()
+	}
+	request(11)
+	if !await(0) {
+		return "C20:not-released-by-matching-request", "the client waiting for code 11 was not released by a list request"
+	}
+	time.Sleep(2 * c20RTSettle) // the queued wait (code 19) is sent and registered now
+	if rel[1].Load() || rel[2].Load() {
+		return "C20:released-without-matching-request", fmt.Sprintf("a request with code 11 released a waiter on another code (19: %v, 32: %v)", rel[1].Load(), rel[2].Load())
+	}
+	request(32)
+	if !await(2) {
+		return "C20:not-released-by-matching-request", "the client waiting for code 32 was not released by a slot-listing request"
+	}
+	time.Sleep(c20RTSettle)
+	if rel[1].Load() {
+		return "C20:released-without-matching-request", "the wait for code 19 that was queued inside a shared client was released by a request with code 32 (another client's awaited code)"
+	}
+	for try := 0; try < 10 && !rel[1].Load(); try++ {
+		request(19)
+		time.Sleep(c20RTSettle)
+	}
+	if !rel[1].Load() {
+		return "C20:not-released-by-matching-request", "the wait for code 19 that was queued inside a shared client was not released by ten remove-all requests"
+	}
+	return "", ""
 }
 
 func c20RTRun(k c20RTCase) (key, desc string) {
